@@ -178,9 +178,10 @@ func ParseChainID(chainID string) uint64 {
 	}
 	splitStr := strings.Split(chainID, "-")
 	revision, err := strconv.ParseUint(splitStr[len(splitStr)-1], 10, 64)
-	// sanity check: error should always be nil since regex only allows numbers in last element
+	// the regex only allows digits in the last element, but it does not bound their number: a revision that
+	// does not fit in a uint64 is not a valid revision, so the chainID is treated as not in revision format
 	if err != nil {
-		panic(fmt.Errorf("regex allowed non-number value as last split element for chainID: %s", chainID))
+		return 0
 	}
 	return revision
 }
